@@ -370,3 +370,52 @@ def _enclosing_block(fn_node: ast.AST, stmt: ast.stmt) -> list:
             if isinstance(b, list) and any(s is stmt for s in b):
                 return b
     raise AnalysisError("statement not found in any block")
+
+
+# ---------------------------------------------------------------------------------------------
+# assumptions: every literal is asserted or checked individually
+# ---------------------------------------------------------------------------------------------
+
+
+def check_assumption_assertion(ctx: Ctx, roles: SatRoles, oid: str):
+    """The returned model must agree with EVERY assumption literal: each literal of the list is either asserted (when
+    its variable is free) or compared with the current value (conflict -2 when opposite).  Collapsing the list per
+    variable first (dict / set keyed by variable) lets a later literal silently override an earlier one."""
+    g = roles.propagate
+    cfg = cfg_of(g.node)
+    gv = GuardView(cfg)
+    loops = [n for n in own_nodes(g.node) if isinstance(n, ast.For) and "assum" in ast.unparse(n.iter)]
+    loops += [n for n in own_nodes(g.node) if isinstance(n, ast.For) and any(x in names_in(n.iter) for x in _derived_from(roles.f, "assumptions")) and n not in loops]
+    ctx.ob(oid, "R26 assumptions", g, "assumptions are asserted in a loop at decision level 0", len(loops) == 1, f"{len(loops)} loops over assumption data in {g.qualname}", node=g.node)
+    if len(loops) != 1:
+        return
+    lp = loops[0]
+    it = lp.iter
+    per_literal = isinstance(it, ast.Name) and it.id == "assumptions" and isinstance(lp.target, ast.Name)
+    # `assumptions` itself must still be the list of literals (list(...) of the parameter)
+    defs = [ast.unparse(v) for v in assignments_to(roles.f.node, "assumptions") if isinstance(v, ast.AST)]
+    list_ok = all(d in ("list(assumptions) if assumptions else []", "list(assumptions)", "list(assumptions or [])") for d in defs)
+    ctx.ob(oid, "R26 assumptions", g, "the loop visits every assumption literal (the list itself, not a per-variable collapse)", per_literal and list_ok, f"iterates `{ast.unparse(it)}`; assumptions = {defs}", node=lp)
+    lit = ast.unparse(lp.target)
+    asserts = [n for n in ast.walk(lp) if isinstance(n, ast.Call) and isinstance(n.func, ast.Name) and n.func.id == roles.assign.name]
+    conflicts = [n for n in ast.walk(lp) if isinstance(n, ast.Return) and ast.unparse(n.value) == "-2"]
+    ok = len(asserts) == 1 and len(conflicts) == 1
+    if ok:
+        a_at = gv.guard_atoms(cfg.stmt_node_containing(asserts[0]), stable_only=False)
+        c_at = gv.guard_atoms(cfg.node_of(conflicts[0]), stable_only=False)
+        ok = any("UNDEF" in a and "==" in a for a in a_at) and any("!=" in a and f"{lit} > 0" in a.replace("(", "").replace(")", "") or ("!=" in a and "0 < " + lit in a) for a in c_at) and ast.unparse(asserts[0].args[1]) == f"{lit} > 0"
+    ctx.ob(oid, "R26 assumptions", g, "a free variable is assigned the literal's polarity; an opposite value is reported as assumption conflict", ok, "", node=lp)
+    at = gv.guard_atoms(cfg.stmt_node_containing(lp.iter))
+    ctx.ob(oid, "R26 assumptions", g, "assumptions are (re)asserted whenever propagation runs at decision level 0", any(a in ("0 == len(trail_lim)", "len(trail_lim) == 0") for a in at), f"{sorted(at)}", node=lp)
+
+
+def _derived_from(f: Func, name: str) -> set[str]:
+    out = {name}
+    changed = True
+    while changed:
+        changed = False
+        for n in own_nodes(f.node):
+            if isinstance(n, ast.Assign) and len(n.targets) == 1 and isinstance(n.targets[0], ast.Name) and names_in(n.value) & out and n.targets[0].id not in out:
+                out.add(n.targets[0].id)
+                changed = True
+    return out - {name}
